@@ -989,7 +989,9 @@ def gen_ls_cases(ctx: Ctx, count):
             it["seed"] = rng.randrange(1 << 30)
             items.append(it)
         cases.append({"kind": "ls", "solver": solver, "dtype": dtype, "batch": batch, "m": m, "n": n, "items": items})
-        if rng.random() < 0.06 and solver in ("PINV", "LSTSQ", "LSTSQ:gelsd", "LSTSQ:gelss"):
+        # non-finite entries: only LSTSQ.forward promises a loud failure (its NaN assertion); PINV/pinv has no such
+        # clause and matrices with infinite entries are outside the property's quantifier (see notes/C10.md)
+        if rng.random() < 0.12 and solver in ("LSTSQ", "LSTSQ:gelsd", "LSTSQ:gelss"):
             cases[-1]["malformed"] = rng.choice(["inf", "inf", "-inf"])
             for it in items:
                 it.update({"kind": "float", "cexp": 0, "ascale": 0, "b": "generic", "bscale": 0})
